@@ -175,13 +175,18 @@ def _diag_scaling(a, b, sa, sb, divide):
         return T("matmul", b.term, T("dg", a.term))
     if len(sa) == 2 and len(sb) == 2:
         u = Dim(1)
-        if sb[0] == u and sb[1] != u and sa[0] != u:
+        # outer product written as a broadcast product: (n,1) * (1,m) = (n,1) @ (1,m)
+        if not divide and sa[1] == u and sb[0] == u and sa[0] != u and sb[1] != u:
+            return T("matmul", a.term, b.term)
+        if not divide and sb[1] == u and sa[0] == u and sb[0] != u and sa[1] != u:
+            return T("matmul", b.term, a.term)
+        if sb[0] == u and sb[1] != u and sa[0] != u and sa[1] == sb[1]:
             return T("matmul", a.term, T("dg", inv(b.term)))
-        if sb[1] == u and sb[0] != u and sa[1] != u:
+        if sb[1] == u and sb[0] != u and sa[1] != u and sa[0] == sb[0]:
             return T("matmul", T("dg", inv(b.term)), a.term)
-        if not divide and sa[0] == u and sa[1] != u and sb[0] != u:
+        if not divide and sa[0] == u and sa[1] != u and sb[0] != u and sa[1] == sb[1]:
             return T("matmul", b.term, T("dg", a.term))
-        if not divide and sa[1] == u and sa[0] != u and sb[1] != u:
+        if not divide and sa[1] == u and sa[0] != u and sb[1] != u and sa[0] == sb[0]:
             return T("matmul", T("dg", a.term), b.term)
     return None
 
@@ -236,6 +241,9 @@ def binop(interp, op, a, b, st, node):
     else:
         shape = broadcast(interp, sa, sb, st, node, what=name)
     term = T(name, a.term, b.term)
+    if name == "matmul" and sa is not None and sb is not None and len(sa) == 1 and len(sb) == 1:
+        # dot product of two vectors = sum of the elementwise product
+        term = T("sum", T("mul", a.term, b.term))
     if name == "mul":
         if sa == ():
             term = T("smul", a.term, b.term)
@@ -477,7 +485,10 @@ def index_shape(interp, base, idx, st, node):
             interp.event("shape-conflict", node, st, what="too-many-indices", a=tuple(sh), b=())
             return None
         d = sh[ax]
-        if it.kind == "slice":
+        if it.kind == "slice1":
+            out.append(Dim(1))
+            ax += 1
+        elif it.kind == "slice":
             out.append(_slice_len(d, it))
             ax += 1
         elif it.kind in ("int", "bool") or (it.kind in ("arr", "float", "unk") and it.shape == ()):
@@ -511,7 +522,7 @@ def index_shape(interp, base, idx, st, node):
 def _is_basic_index(idx):
     items = idx.items if idx.kind == "tuple" and idx.items is not None else [idx]
     for it in items:
-        if it.kind in ("slice", "none", "ellipsis", "int"):
+        if it.kind in ("slice", "slice1", "none", "ellipsis", "int"):
             continue
         if it.kind in ("arr", "float", "unk") and it.shape == ():
             continue
@@ -545,6 +556,11 @@ def _canon_index(interp, base, idx):
         d = sh[ax]
         if it.kind == "slice":
             lo, hi, step = it.items
+            if lo.kind == "int" and step.kind == "none" and hi.term == T("add", lo.term, const(1)):
+                it = V("slice1", T("slice1", lo.term), items=[lo], labels=it.labels)
+                out.append(it)
+                changed = True
+                continue
             lo0 = lo.kind == "none" or (lo.has_const and lo.const == 0)
             st1 = step.kind == "none" or (step.has_const and step.const == 1)
             hid = None
@@ -604,6 +620,13 @@ def subscript(interp, base, idx, st, node):
         idx = _canon_index(interp, base, idx)
         if idx is None:
             return base
+        its = idx.items if idx.kind == "tuple" and idx.items is not None else [idx]
+        if all(it.kind == "none" or it is _full_slice() or (it.kind == "slice" and all(x.kind == "none" for x in it.items)) for it in its) and any(it.kind == "none" for it in its):
+            sh = index_shape(interp, base, idx, st, node)
+            if sh is not None:
+                from .api_numpy import shape_terms
+
+                return V("arr", T("reshape1", base.term, *shape_terms(sh)), shape=sh, orig=base.orig, labels=base.labels, loc=base.loc, extra=base.extra if isinstance(base.extra, str) else None)
     term = T("getitem", base.term, idx.term)
     if base.kind in ("arr", "list", "tuple"):
         shape = index_shape(interp, base, idx, st, node)
